@@ -7,9 +7,14 @@ CONSTANTS
   Time = {1, 2}
   Locales = {"C"}
   EnvSizes = {0}
+  PwdValues = {"real", "link"}
+  CwdVia = {"real", "link"}
+  OcNames = {"rel"}
+  CwdSource = "getcwd"
   TieBreak = "signature"
 INVARIANT OutputPure
 INVARIANT EpochWins
+INVARIANT EmbedsArgumentsOnly
 INVARIANT IffTotal
 INVARIANT TotalWithTieBreak
 INVARIANT EmittedRespectsKeys
